@@ -4,7 +4,7 @@ for id in "$@"; do
   wt=/tmp/mt_$id
   git -C /repo worktree remove --force $wt 2>/dev/null; rm -rf $wt
   git -C /repo worktree add --detach $wt HEAD -q || continue
-  (cd $wt && git apply /verif/seeded/$id/patch.diff && OMP_NUM_THREADS=1 PYTHONPATH=$wt /venv/bin/python -m pytest -q -n 8 -p no:cacheprovider tests/ 2>&1 | tail -2 > /tmp/mt_$id.txt)
+  (cd $wt && (git apply /verif/seeded/$id/patch.diff || patch -p1 --fuzz=3 < /verif/seeded/$id/patch.diff) && OMP_NUM_THREADS=1 PYTHONPATH=$wt /venv/bin/python -m pytest -q -n 8 -p no:cacheprovider tests/ 2>&1 | tail -2 > /tmp/mt_$id.txt)
   git -C /repo worktree remove --force $wt; rm -rf $wt
 done
 git -C /repo worktree prune
